@@ -170,6 +170,16 @@ impl H {
     /// host never reuses the inode number within a history) + identity
     fn host_lookup(&mut self, rp: usize, name: &str) -> Option<(RawFd, HostId)> {
         let pfd = self.rfd.get(rp).copied().flatten()?;
+        // the harness's own probing is not subject to the descriptor limit injected for the request
+        let mut cur = libc::rlimit { rlim_cur: 0, rlim_max: 0 };
+        unsafe { libc::getrlimit(libc::RLIMIT_NOFILE, &mut cur) };
+        let full = libc::rlimit { rlim_cur: cur.rlim_max.min(4096), rlim_max: cur.rlim_max };
+        unsafe { libc::setrlimit(libc::RLIMIT_NOFILE, &full) };
+        let r = self.host_lookup_inner(pfd, rp, name);
+        unsafe { libc::setrlimit(libc::RLIMIT_NOFILE, &cur) };
+        r
+    }
+    fn host_lookup_inner(&mut self, pfd: RawFd, rp: usize, name: &str) -> Option<(RawFd, HostId)> {
         // the server never leaves the export: ".." of the root is the root (do_lookup)
         let name = if self.reg(rp) == 1 && name == ".." { "." } else { name };
         let n = cs(name);
@@ -481,14 +491,19 @@ fn main() {
                 }
             }
             "release" | "releasedir" => {
+                // release <r> <h> [flush] [flock] [flags<N>] [lock<N>]: every field of the request can be set
                 let (r, hr) = (us(1), us(2));
                 let (ino, hh) = (h.reg(r), h.hreg(hr));
+                let flush = w.iter().any(|x| x == "flush");
+                let flock = w.iter().any(|x| x == "flock");
+                let flags: u32 = w.iter().find_map(|x| x.strip_prefix("flags").and_then(|v| v.parse().ok())).unwrap_or(0);
+                let lock: Option<u64> = w.iter().find_map(|x| x.strip_prefix("lock").and_then(|v| v.parse().ok()));
                 let res = if w[0] == "release" {
-                    h.fs.release(&h.ctx.clone(), ino, 0, hh, false, false, None)
+                    h.fs.release(&h.ctx.clone(), ino, flags, hh, flush, flock, lock)
                 } else {
-                    h.fs.releasedir(&h.ctx.clone(), ino, 0, hh)
+                    h.fs.releasedir(&h.ctx.clone(), ino, flags, hh)
                 };
-                body = format!("\"res\":{},\"ino\":{},\"h\":{}", res.err().map(|e| errno_of(&e)).unwrap_or(0), ino, hh);
+                body = format!("\"res\":{},\"ino\":{},\"h\":{},\"flush\":{}", res.err().map(|e| errno_of(&e)).unwrap_or(0), ino, hh, flush);
             }
             "use" => {
                 // use <r> <h> <kind>: a request that presents (inode, handle)
@@ -497,9 +512,9 @@ fn main() {
                 let c = h.ctx.clone();
                 let res: std::io::Result<()> = match w[3].as_str() {
                     "getattr" => h.fs.getattr(&c, ino, Some(hh)).map(|_| ()),
-                    "fsync" => h.fs.fsync(&c, ino, false, hh),
-                    "fsyncdir" => h.fs.fsyncdir(&c, ino, false, hh),
-                    "flush" => h.fs.flush(&c, ino, hh, 0),
+                    "fsync" => h.fs.fsync(&c, ino, w.iter().any(|x| x == "ds"), hh),
+                    "fsyncdir" => h.fs.fsyncdir(&c, ino, w.iter().any(|x| x == "ds"), hh),
+                    "flush" => h.fs.flush(&c, ino, hh, w.iter().find_map(|x| x.strip_prefix("lock").and_then(|v| v.parse().ok())).unwrap_or(0)),
                     "lseek" => h.fs.lseek(&c, ino, hh, 0, libc::SEEK_CUR as u32).map(|_| ()),
                     "read" => h.fs.read(&c, ino, hh, &mut Buf(vec![]), 4, 0, None, libc::O_RDONLY as u32).map(|_| ()),
                     "write" => h.fs.write(&c, ino, hh, &mut Buf(b"ab".to_vec()), 2, 0, None, false, libc::O_WRONLY as u32, 0).map(|_| ()),
